@@ -15,10 +15,16 @@ NS = 'bit'
 VARS = ('a', 'b', 'c', 'd')
 
 
+def is_alias(name):
+    """in-place forms (an output vector is an input vector)"""
+    return '_q' in name and '_r' in name
+
+
 def spec_groups(n, single=False):
     from fjv import stlspec
     specs = stlspec.bit1_specs() if single else stlspec.bit_specs(n)
     heavy = {'mul', 'mul_self', 'mul_loop', 'div', 'div_loop', 'idiv', 'idiv_loop', 'div10'}
+    heavy |= {s.name for s in specs if is_alias(s.name)}
     light = [s for s in specs if s.name not in heavy]
     groups = [light[i::3] for i in range(3)]
     groups += [[s] for s in specs if s.name in heavy]
@@ -32,8 +38,9 @@ def make_tasks(tier):
         for gi in range(len(spec_groups(1, True))):
             tasks.append((tier, w, 1, True, gi, 1 << 16))
         for n in range(1, 9):
-            for gi in range(len(spec_groups(n))):
-                tasks.append((tier, w, n, False, gi, 1 << 16))
+            for gi, g in enumerate(spec_groups(n)):
+                small = tier != 'thorough' and n >= 7 and is_alias(g[0].name)
+                tasks.append((tier, w, n, False, gi, 1 << 10 if small else 1 << 16))
     if tier != 'thorough':
         for n in (4, 8):
             for gi in range(len(spec_groups(n))):
